@@ -153,6 +153,7 @@ int EGLPNUM_TYPENAME_ILLread_mps (
 	int end = 0;
 	EGLPNUM_TYPENAME_ILLread_mps_state state;
 
+	state.obj = 0;
 	ILL_IFTRACE ("\tread_mps\n");
 	if (ILLsymboltab_create (&lp->rowtab, 100) ||
 			ILLsymboltab_create (&lp->coltab, 100))
@@ -210,6 +211,7 @@ int EGLPNUM_TYPENAME_ILLread_mps (
 	}
 
 CLEANUP:
+	ILL_IFFREE(state.obj);	/* copy of the OBJNAME field, mps_fill_in made its own */
 	ILL_RESULT (rval, "read_mps");
 }
 
